@@ -38,6 +38,7 @@ def cases(tier, seed):
     out += F.configs(b['max_n'], F.CLASSES_3D, l_max=b['l_max_3d'], used=True)
     # sessions: objects of several sizes / deformations of one class built in ONE process
     sess = [{'part': 'session', 'cfgs': seq} for seq in session.interleave_by_size(out)]
+    sess += [{'part': 'session', 'cfgs': seq} for seq in session.across_classes(out)]
     return out + sess
 
 
